@@ -302,11 +302,23 @@ def a6(ctx, rid):
     c07.h6d(ctx, rid)
 
 
+def a7(ctx, rid):
+    import moveout
+    moveout.dropped_rule(ctx, rid)
+
+
+def a8(ctx, rid):
+    import props.c04 as c04
+    c04.t7(ctx, rid)
+
+
 RULES = [
     Rule('C15.A1', 'every header insertion is counted exactly once; the loader seeds the count from the index file, not from the key map', a1, 5),
     Rule('C15.A2', 'public accessors of the closed-blob vector agree that empty slots are absent', a2, 4),
     Rule('C15.A3', 'the corrupted-blob counter is stored only in exclusive initialisation; the per-session count follows a successful quarantine', a3, 3),
     Rule('C15.A4', 'a blob created for the active slot is installed or returned on every ok path', a4, 4),
     Rule('C15.A5', 'the gauges named by the property read the closed list and the active slot under one storage guard (one acquisition per call)', a5, 5),
+    Rule('C15.A7', 'a blob moved out of the active slot or the closed list is handed back on every non-error exit (never dropped from the accounting)', a7, 4),
+    Rule('C15.A8', 'an assignment into the active slot never overwrites a live blob (C04.T7 instances)', a8, 4),
     Rule('C15.A6', 'next_blob_id is fed by the ids of opened, failed and quarantined blobs (C07.H6/H6d instances)', a6, 4),
 ]
